@@ -66,7 +66,7 @@ CLAIMED["C17"] = dict(
          "Three genuine defects were repaired (F8a-c). Trusted: Coq kernel, translators gen_kana/gen_elisp, the elisp evaluator standing in for Emacs.",
     ref="6/C17")
 SRV_NOTE = ("Trusted: Coq kernel; translators (gen_speech, gen_dicgrammar, gen_conj, gen_score, gen_kana); the hand model Server/ServerModel.v, tied on every run by driving the REAL server over HTTP "
-            "through request histories (quiesced via the Verif.Dump hook) and comparing every response, the learned counts with time stamps, the user dictionary and the live sessions with the model, restarts included; "
+            "through request histories (quiesced via the Verif.Dump hook) and comparing every response, the learned counts with time stamps, the user dictionary, the live sessions and the live standard dictionary (Verif.Words hook: words per reading in the engine's order, trie membership) with the model, restarts included; "
             "jsonrpsee/HTTP, tokio, Mutex/mpsc semantics, postcard, the file system and wall-clock behaviour are observed, not proved; i32 overflow and very long inputs are outside the model.")
 CLAIMED["C05"] = dict(
     technique="Coq proof (invariant over all request histories of a sequential server model composed of the library models: no panic under a lock, restart included) + real-server request histories",
